@@ -74,10 +74,42 @@ def _random_records(ctx, count, nmax):
         mean = A.grouped_mean(np.asarray(w, dtype=np.float64), vv)
         fr = [Fraction(float(x)).limit_denominator(100000) for x in mean]
         recs.append(dict(
-            id=rid, v=v, ids=ids, groups=groups, unique=as_list(A._unique(vv)), req=req,
+            id=rid, kind='utils', v=v, ids=ids, groups=groups, unique=as_list(A._unique(vv)), req=req,
             inClusters=as_list(A._spikes_in_clusters(vv, req)), flat=as_list(A._flatten_per_cluster(d)),
             lookup=lookup, indexOf=as_list(A._index_of(vneg, lookup)), vneg=as_list(vneg), w=w,
             mean=[[f.numerator, f.denominator] for f in fr]))
+    return recs
+
+
+def _model_records(ctx, count, rid0):
+    """The TemplateModel queries built on the utilities, on generated datasets."""
+    from .. import datasets as D
+    from ..util import tmp_dir
+    from .c08 import random_history
+    import shutil
+    rng = np.random.RandomState(ctx.seed + 77)
+    recs = []
+    with tmp_dir(ctx) as d:
+        for k in range(count):
+            st, sc = random_history(rng, int(rng.randint(3, 40)), int(rng.randint(1, 6)), int(rng.randint(0, 6)))
+            nt = max(2, int(st.max()) + 1 + int(rng.randint(0, 2)))
+            ds = D.random_dense(rng, ns=len(st), nt=nt, nc=3, nsw=2)
+            ds['st'], ds['sc'] = st, sc
+            shutil.rmtree(d / 'm', ignore_errors=True)
+            p = D.write_dataset(d / 'm', ds, id_dtype=[np.int32, np.uint32, np.int64, np.uint16][k % 4])
+            with ctx.guard('model', dict(st=as_list(st), sc=as_list(sc))):
+                m = D.load(p)
+                try:
+                    cl = sorted(set(as_list(sc))) + [int(sc.max()) + 1]
+                    recs.append(dict(
+                        id=rid0 + len(recs), kind='model', st=as_list(st), sc=as_list(sc), nt=nt,
+                        cluster_spikes=[[c, as_list(m.get_cluster_spikes(c))] for c in cl],
+                        template_spikes=[[t, as_list(m.get_template_spikes(t))] for t in range(nt)],
+                        template_counts=[[c, as_list(m.get_template_counts(c))] for c in cl]))
+                finally:
+                    m.close()
+            if ctx.abort:
+                break
     return recs
 
 
@@ -114,11 +146,14 @@ def run(ctx):
         recs = _random_records(ctx, 60 if ctx.quick else 400, 1000)
     if ctx.abort or not recs:
         return
+    recs += _model_records(ctx, 60 if ctx.quick else 600, len(recs) + 1)
+    if ctx.abort:
+        return
     for chunk in [recs[a:a + 100] for a in range(0, len(recs), 100)]:
         for rid, clause in ctx.validate('Trace_Clusters', 'Trace_Clusters.cfg', chunk, timeout=2400):
             r = recs[rid - 1]
             ctx.violation('trace', 'recorded output rejected by the specification: clause %s (n=%d)'
-                          % (clause, len(r['v'])), dict(record=r, clause=clause))
+                          % (clause, len(r.get('v', r.get('sc')))), dict(record=r, clause=clause))
 
 
 def replay(ctx, doc):
